@@ -60,6 +60,15 @@ func constSnippet(i int, pos string) []Stmt {
 	case 20: // host modules with scalar / immutable-array values
 		return []Stmt{Def(v("n"), &Import{Name: "nummod"}), Def(v("l"), &Import{Name: "listmod"}),
 			Def(v("a"), &ArrayLit{Elems: []Expr{B("+", I(v("n")), N("1")), B("==", &Index{X: I(v("l")), I: N("0")}, True()), B("==", &Index{X: I(v("l")), I: N("1")}, Undef())}})}
+	case 22: // host modules of the remaining constant kinds; singletons nested in error values / maps keep their identity
+		imp := func(n string) Expr { return &Import{Name: n} }
+		return []Stmt{Def(v("a"), &ArrayLit{Elems: []Expr{
+			B("==", &Sel{X: imp("errmod"), Name: "value"}, True()),
+			B("==", &Sel{X: imp("mapmod"), Name: "t"}, False()),
+			B("==", &Sel{X: &Sel{X: imp("mapmod"), Name: "e"}, Name: "value"}, Undef()),
+			B("==", &Sel{X: &Sel{X: imp("mapmod"), Name: "n"}, Name: "u"}, Undef()),
+			B("==", &Index{X: &Sel{X: &Sel{X: imp("mapmod"), Name: "n"}, Name: "a"}, I: N("0")}, True()),
+			imp("bytesmod"), imp("timemod"), imp("charmod"), imp("nanmod"), imp("mapmod")}})}
 	case 21: // iterating a builtin module table (a constant shared by all clones)
 		return []Stmt{Def(v("m"), &Import{Name: "math"}), Def(v("a"), N("0")),
 			&ForIn{Key: "k" + pos, Val: "w" + pos, X: I(v("m")), Body: []Stmt{&Assign{LHS: I(v("a")), Op: "+=", RHS: N("1")}}}}
@@ -68,7 +77,7 @@ func constSnippet(i int, pos string) []Stmt {
 }
 
 // NumConstSnippets is the pool size.
-const NumConstSnippets = 22
+const NumConstSnippets = 23
 
 // ConstModules are the source modules available to the consts family.
 func ConstModules() map[string][]Stmt {
